@@ -171,3 +171,27 @@ fn iter_skip_to_next_document<'a>(src: &mut LiveEvents<'a>) -> (r: bool)
 
 /// what `scalar_is_nullish(text, style)` returns (proved in unit typed: plain style and the text is empty, `~` or `null` in any case)
 pub uninterp spec fn live_nullish(text: Seq<char>, style: ScalarStyle) -> bool;
+
+// ---- construction sites of the event source (C09) ----
+/// the user's `R: std::io::Read` (or the ring-buffer handle around it), opaque
+#[verifier::external_body]
+pub struct ByteReader { _p: () }
+/// the fields of `crate::Options` that reach `LiveEvents::from_str` / `from_reader`
+pub struct EntryOptions {
+    pub budget: Option<Budget>,
+    pub budget_report: Option<ReportFn>,
+    pub budget_report_cb: Option<ReportCb>,
+    pub alias_limits: AliasLimits,
+}
+/// saphyr-parser's `Parser<BufferedInput<ChunkedChars<..>>>`, opaque
+#[verifier::external_body]
+pub struct StreamParser<'a> { _p: std::marker::PhantomData<&'a ()> }
+/// `SaphyrParser::StreamParser(parser)`
+#[verifier::external_body]
+fn saphyr_stream_parser<'a>(parser: StreamParser<'a>) -> SaphyrParser<'a> { unimplemented!() }
+/// `SaphyrParser::StringParser(Parser::new_from_str(input))`
+#[verifier::external_body]
+fn saphyr_string_parser<'a>(input: &'a str) -> SaphyrParser<'a> { unimplemented!() }
+/// `Rc::new(RefCell::new(None))`
+#[verifier::external_body]
+fn err_cell_new_empty() -> (r: ErrCell) ensures r.content() is None, { unimplemented!() }
